@@ -8,25 +8,27 @@ GEN = ['Stamp']
 PROPS = ['SalsaVerif.Props.C12']
 KNOWN = ('fb-participant-after-revalidated-head', 'fix-participant-stale-after-revalidation')
 EXPLANATION = ('Theorems about the Lean model of salsa\'s fixpoint iteration scheme (DFS with an explicit stack, provisional values, cycle '
-               'heads, outermost-head iteration, per-iteration cache; bodies are monotone expressions over 8-bit sets): for programs '
-               'without fallback nodes, entering at ANY node after ANY history (including panicking requests) every returned value and '
-               'every memo equals the Kleene least fixpoint (`c12_lfp`, `c12_lfp_history`), the converged assignment is a fixpoint and the '
-               'least one, provisional values stay below lfp (`c12_chain_partial`); the ascending-chain and "never hits the 200 bound" '
-               'statements are NOT yet proved (listed in Props/C12.lean). The model abstracts salsa\'s cross-revision reuse of finalised '
-               'cycle memos (a write drops all memos): it is the from-scratch semantics of the iteration scheme. Tied to salsa by comparing '
-               'every request of generated cyclic programs x histories (create / remove / reshape cycles, finalised acyclic feeders) with '
-               'the Lean model AND with an independent Kleene-iteration oracle.')
-ASSUMPTIONS = ['cross-revision reuse of finalised cycle results is covered by the oracle only (known finding kf2 lives exactly there)',
-               'c12_chain (ascending) and c12_terminates are partial']
+               'heads, outermost-head iteration, per-iteration cache; bodies are monotone expressions over 8-bit sets): for well-formed programs '
+               'without fallback nodes and with 8*n < 200, entering at ANY node after ANY history of the revision (including panicking requests) '
+               'a request ends in the Kleene least fixpoint with every memo equal to lfp, or in a `cycle` / propagated panic of a non-recovering '
+               'member, NEVER in too-many-iterations (`c12_full`, `c12_terminates`); with only recovering members it always returns lfp '
+               '(`c12_full_recovering`: total correctness). The provisional values of consecutive passes of an outermost head form an ascending '
+               'chain (`c12_chain`, by a simulation between consecutive DFS passes), the converged assignment is a fixpoint and the least one. '
+               'The model abstracts salsa\'s cross-revision reuse of finalised cycle memos (a write drops all memos): it is the from-scratch '
+               'semantics of the iteration scheme. Tied to salsa by comparing every request of generated cyclic programs x histories (create / '
+               'remove / reshape cycles, finalised acyclic feeders) with the Lean model AND with an independent Kleene-iteration oracle.')
+ASSUMPTIONS = ['cross-revision reuse of finalised cycle results is covered by the oracle only (known finding kf2 lives exactly there; its key is '
+               'recognised by mechanism: a node that was a cycle member at its last execution and was only re-validated since)',
+               'the termination bound is proved for 8*n < 200 (n <= 24 functions); the per-bit argument that would give n < 200 is not formalised']
 
 def ties(ctx):
-    n = 1500 if ctx.tier == 'quick' else 100000
+    n = 8000 if ctx.tier == "quick" else 150000
     return [run_cycle(ctx, n, known_keys=KNOWN, flavours='0,4', corpus='C12')]
 
 def search(ctx, reason):
     t = run_cycle(ctx, 200000, known_keys=KNOWN, flavours='0,4', seed_offset=97, tag='search-cycle')
     for f in t.failures:
-        if f.kind == 'oracle' and f.key not in KNOWN:
+        if f.kind == 'oracle' and f.key not in KNOWN and f.key not in listed_keys():
             return f
     return None
 
